@@ -13,10 +13,10 @@ Local Open Scope N_scope.
 
 (* spend: the body lists exactly the inputs that were added; the spend redeemers are exactly one per
    input whose last registration carries a Plutus witness, at the input's index in the sorted input set;
-   outside the two known classes (Plutus-witnessed collateral, input re-added under another script hash) *)
+   outside the known class (Plutus-witnessed collateral) *)
 Theorem C10_spend : forall (ops : list op) (st : txb) (flags : list bool) (b : built),
   run ops = (st, flags) -> tx_build st = Ok b ->
-  known_collateral_plutus ops = false -> known_stale_spend ops = false ->
+  known_collateral_plutus ops = false ->
   let sf := spend_wits (spend_final (ops_in ops)) in
   spec_field sf (b_inputs b) /\
   spec_pointers TSpend sf (fun k => ledger_set_index outpoint_ledger_ltb k (b_inputs b)) (b_redeemers b) /\
@@ -78,7 +78,7 @@ Print Assumptions C10_propose.
 (* no two redeemers of a built transaction share (tag, index) *)
 Theorem C10_unique : forall (ops : list op) (st : txb) (flags : list bool) (b : built),
   run ops = (st, flags) -> tx_build st = Ok b ->
-  known_collateral_plutus ops = false -> known_stale_spend ops = false ->
+  known_collateral_plutus ops = false ->
   forall r1 r2, In r1 (b_redeemers b) -> In r2 (b_redeemers b) ->
     r_tag r1 = r_tag r2 -> r_index r1 = r_index r2 -> r1 = r2.
 Proof. exact c10_unique. Qed.
@@ -101,7 +101,7 @@ Print Assumptions C10_only_script_items.
 (* the full statement of the property for a built transaction *)
 Theorem C10_full : forall (ops : list op) (st : txb) (flags : list bool) (b : built),
   run ops = (st, flags) -> tx_build st = Ok b ->
-  known_collateral_plutus ops = false -> known_stale_spend ops = false -> known_prop_nonscript ops = false ->
+  known_collateral_plutus ops = false -> known_prop_nonscript ops = false ->
   C10_statement ops b.
 Proof. exact c10_statement_holds. Qed.
 Print Assumptions C10_full.
@@ -115,7 +115,7 @@ Theorem C10_order_irrelevant : forall (ops ops' : list op) (st : txb) (flags : l
   run ops = (st, flags) -> tx_build st = Ok b -> run ops' = (st', flags') -> tx_build st' = Ok b' ->
   known_collateral_plutus ops = false -> known_collateral_plutus ops' = false ->
   forall r, r_tag r <> TCert -> (In r (b_redeemers b) <-> In r (b_redeemers b')).
-Proof. exact c10_order_irrelevant_sets. Qed.
+Proof. exact c10_order_irrelevant. Qed.
 Print Assumptions C10_order_irrelevant.
 
 (* the orders the code sorts / ranks by are the ledger's orders, and has_required_script_witness is the ledger's table *)
@@ -137,25 +137,34 @@ Proof. exact judge_sound. Qed.
 Print Assumptions C10_judge_sound.
 
 Theorem C10_judge_known_narrow : forall (ops : list op) (b : built) (c : N), judge ops b = FailsKnown c ->
-  (c = 1 /\ known_collateral_plutus ops = true) \/
-  (c = 3 /\ known_collateral_plutus ops = false /\ known_stale_spend ops = true) \/
-  (c = 2 /\ known_prop_nonscript ops = true).
+  (c = 1 /\ known_collateral_plutus ops = true) \/ (c = 2 /\ known_prop_nonscript ops = true).
 Proof. exact judge_known_narrow. Qed.
 Print Assumptions C10_judge_known_narrow.
 
+(* ... and complete: it accepts every transaction the model builds outside the known classes, so a `fails:-` verdict of the
+   correspondence run is never an artefact of the judge on behaviour the model (hence the theorems) covers *)
+Theorem C10_judge_complete : forall (ops : list op) (st : txb) (flags : list bool) (b : built),
+  run ops = (st, flags) -> tx_build st = Ok b ->
+  known_collateral_plutus ops = false -> known_prop_nonscript ops = false -> judge ops b = Holds.
+Proof. exact judge_complete. Qed.
+Print Assumptions C10_judge_complete.
+
+(* the known classes, stated on the call list alone: K1 = the LAST call for some collateral input is
+   add_plutus_script_input; K2 = the last accepted call for some proposal without policy hash is add_with_plutus_witness *)
+Theorem C10_known_classes_on_calls : forall ops : list op,
+  (known_collateral_plutus ops = true <-> exists o h rid, spend_final (ops_col ops) o = Some (Some (h, WPlutus rid))) /\
+  (known_prop_nonscript ops = true <->
+     exists p rid, prop_final (ops_prop ops) p = Some (Some (WPlutus rid)) /\ prop_has_script_hash p = false).
+Proof. intros ops. split; [apply known_collateral_plutus_iff | apply known_prop_nonscript_iff]. Qed.
+Print Assumptions C10_known_classes_on_calls.
+
 (* ---- inside the known classes the unrestricted statements are false (witnesses replayed on the real code:
-        corpus/C10 w4, w6, w5) ---- *)
+        corpus/C10 w4, w5) ---- *)
 Theorem C10_unique_refuted_collateral :
-  known_collateral_plutus w_collateral_ops = true /\ known_stale_spend w_collateral_ops = false /\
+  known_collateral_plutus w_collateral_ops = true /\
   exists st flags b, run w_collateral_ops = (st, flags) /\ tx_build st = Ok b /\ ~ spec_unique (b_redeemers b).
 Proof. exact unique_refuted_collateral. Qed.
 Print Assumptions C10_unique_refuted_collateral.
-
-Theorem C10_unique_refuted_stale :
-  known_stale_spend w_stale_ops = true /\ known_collateral_plutus w_stale_ops = false /\
-  exists st flags b, run w_stale_ops = (st, flags) /\ tx_build st = Ok b /\ ~ spec_unique (b_redeemers b).
-Proof. exact unique_refuted_stale. Qed.
-Print Assumptions C10_unique_refuted_stale.
 
 Theorem C10_only_script_refuted_proposal :
   known_prop_nonscript w_prop_ops = true /\
@@ -164,8 +173,15 @@ Theorem C10_only_script_refuted_proposal :
 Proof. exact locked_refuted_proposal. Qed.
 Print Assumptions C10_only_script_refuted_proposal.
 
-(* ---- the two repaired defects (commits 2fef2d7, c263357): the behaviour before the repair violates the
-        statement (witnesses corpus/C10 w0, w2) ---- *)
+(* ---- the three repaired defects (commits 2fef2d7, c263357, ae86092): the behaviour before the repair violates the
+        statement (witnesses corpus/C10 w0, w2, w6) ---- *)
+Theorem C10_stale_legacy_refuted :
+  let st := fold_left ib_step (ops_in w_stale_ops) ib_empty in
+  ib_plutus_legacy st = [mkR TSpend 0 1; mkR TSpend 0 2] /\ ~ spec_unique (ib_plutus_legacy st) /\
+  ib_plutus st = [mkR TSpend 0 2].
+Proof. exact stale_legacy_refuted. Qed.
+Print Assumptions C10_stale_legacy_refuted.
+
 Theorem C10_reward_legacy_refuted :
   let st := fold_left wd_apply w_reward_ops [] in
   ~ spec_pointers TReward (wd_final w_reward_ops)
@@ -200,8 +216,3 @@ Check (eq_refl : map (fun p => voter_ledger_ltb (fst p) (snd p))
 (* the certificate table: kinds that take a script witness when the credential is a script hash *)
 Check (eq_refl : map (fun k => ledger_cert_script_locked (mkCert k true 0)) [0;1;2;3;4;5;6;7;8;9;10;11;12;13;14;15;16;17;18;19]
   = [false;true;true;false;false;false;false;true;true;true;true;true;true;true;true;true;true;true;true;false]).
-
-(* for pairwise distinct items (the property's own quantifier: SETS of items) the stale-witness class is empty *)
-Theorem C10_distinct_items_no_stale : forall ops : list op, distinct_items ops -> known_stale_spend ops = false.
-Proof. exact distinct_items_no_stale. Qed.
-Print Assumptions C10_distinct_items_no_stale.
